@@ -22,7 +22,12 @@ RULE = ("histories = one reporter dictionary (model / agent / agent-type reporte
         "columns, class populations with removals, frames of empty collectors), 60 histories with reporters that raise at a "
         "collect, 80 histories with values of other immutable types (bool, str, tuple, Decimal, Fraction, frozenset, floats "
         "incl. 0.1 / 1e300 / the smallest denormal, ints beyond 2^53) at agent, agent-type, model and table level; the whole "
-        "collector state is observed after every operation; a second DataCollector built from the same dictionaries collects "
+        "collector state is observed after every operation; two oracle-only streams without the Z-valued model: 60 histories "
+        "whose model reporters (all four forms and partial) return rare MUTABLE containers - object-dtype arrays of lists/dicts, "
+        "tuples of tuples holding lists, dict of arrays, set, deque, a dataclass-like object, 2-D and structured arrays, a view of an "
+        "array the model keeps writing to - mutated in place after the collect, and 4 SCALE cases (255/256/257/1025 agents, up to 257 "
+        "collects, tables of 256..1025 rows, values beyond 2^53 / 2^62 / 2^63; thorough and the enumerator after a break go to 4097); "
+        "a second DataCollector built from the same dictionaries collects "
         "at the end; non-trivial = at least 2 collects and one reporter; distinct = by SHA1 of the history")
 TRUSTED_BASE = [
     "Coq 8.16.1 kernel (coqc); vm_compute used for finite facts and for evaluating the model in the correspondence",
@@ -235,7 +240,7 @@ def gen_cases(rng, tier):
         cfg = _gen_cfg(rng)
         cases.append({"cfg": cfg, "ops": _gen_history(rng, cfg, rng.randint(6, 30))})
     # a slice of the targeted sweep is always part of the run (the corner cases the quantifier names)
-    sweep = list(enumerate_cases(tier))
+    sweep = list(_enumerate_main(tier))
     rng.shuffle(sweep)
     cases += sweep[:150 if tier == "quick" else 0]
     # collects during which a reporter raises (the state collect leaves behind: C12_collect_raises_state)
@@ -244,7 +249,39 @@ def gen_cases(rng, tier):
     # agent-level values of other immutable types (attribute a4): the frame cell must be the very same value and type
     for _ in range(80 if tier == "quick" else 800):
         cases.append(_gen_exotic_case(rng))
+    # oracle-only streams (no Z-valued model): rare mutable containers mutated in place after the collect; SCALE
+    for _ in range(60 if tier == "quick" else 600):
+        cases.append(_gen_container_case(rng))
+    cases += _scale_cases(rng, 4 if tier == "quick" else 24)
     return cases
+
+
+def _gen_container_case(rng):
+    kinds = list(range(13))
+    init = [[n, rng.choice(kinds), [rng.randint(0, 9) for _ in range(rng.randint(0, 3))]] for n in range(rng.randint(1, 3))]
+    reps = [[rng.choice([i[0] for i in init]), rng.choice(["attr", "fun", "partial", "method", "args"])] for _ in range(rng.randint(1, 4))]
+    ops = []
+    for _ in range(rng.randint(5, 14)):
+        p = rng.random()
+        if p < 0.35:
+            ops.append(["collect"])
+        elif p < 0.8:
+            ops.append(["mut", rng.choice([i[0] for i in init]), rng.randint(1, 9)])
+        elif p < 0.9:
+            ops.append(["step"])
+        else:
+            ops.append(["mk", rng.choice([i[0] for i in init]), rng.choice(kinds), [rng.randint(0, 9) for _ in range(rng.randint(0, 3))]])
+    ops += [["collect"], ["mut", init[0][0], 5], ["mut", init[-1][0], 7]]
+    return {"kind": "containers", "init": init, "reps": reps, "ops": ops}
+
+
+def _scale_cases(rng, count):
+    out = []
+    sizes = [(255, 3, 256), (256, 4, 257), (257, 3, 1025), (3, 257, 300), (1025, 3, 64), (2, 1025, 4097), (4097, 2, 8), (129, 33, 2049)]
+    for j in range(count):
+        n, k, t = sizes[j % len(sizes)] if j >= 4 else [(256, 3, 257), (257, 4, 1025), (3, 257, 256), (1025, 2, 300)][j]
+        out.append({"kind": "scale", "agents": n, "collects": k, "rows": t, "churn": rng.random() < 0.5, "ops": [["scale"]]})
+    return out
 
 
 def _gen_exotic_case(rng):
@@ -342,7 +379,22 @@ def _gen_raising_case(rng):
     return {"cfg": cfg, "ops": ops}
 
 
+def _enumerate_scale(tier, broken):
+    import random
+
+    rng = random.Random(77)
+    if broken or tier == "thorough":
+        yield from _scale_cases(rng, 16)
+        for _ in range(400):
+            yield _gen_container_case(rng)
+
+
 def enumerate_cases(tier, broken=False):
+    yield from _enumerate_scale(tier, broken)
+    yield from _enumerate_main(tier, broken)
+
+
+def _enumerate_main(tier, broken=False):
     """targeted sweep: (a) every reporter form at every level through one fixed mutation-rich history;
     (b) add_table_row: every subset of present columns x ignore flag x table size <= 3, twice in a row;
     (c) agent-type keys x every population history of <= 3 agents over the class hierarchy incl. removals;
@@ -661,7 +713,286 @@ def _frame_recs(df):
     return out
 
 
+# ------------------------------------------------------------------ oracle-only streams (no Z-valued model): rare containers, scale
+class _Box:
+    """a dataclass-like value"""
+
+    def __init__(self, items):
+        self.items = list(items)
+        self.meta = {"n": len(items)}
+
+
+def _mk_container(model, n, kind, l):
+    import collections
+
+    import numpy as np
+
+    l = list(l)
+    if kind == 0:
+        v = l
+    elif kind == 1:                          # object-dtype array holding a list and a dict of a list
+        v = np.empty(2, dtype=object)
+        v[0], v[1] = list(l), {"k": list(l)}
+    elif kind == 2:
+        v = (list(l), "x")                   # a tuple with a nested list
+    elif kind == 3:
+        v = {"a": np.array(l, dtype=np.int64), "b": list(l)}
+    elif kind == 4:
+        v = set(l)
+    elif kind == 5:
+        v = collections.deque(l)
+    elif kind == 6:
+        v = _Box(l)
+    elif kind == 7:
+        v = np.array([l, l], dtype=np.int64)  # 2-D
+    elif kind == 8:
+        v = np.zeros(max(1, len(l)), dtype=[("x", "i8"), ("y", "f8")])
+        v["x"][:len(l)] = l
+    elif kind == 9:                          # a VIEW of an array the model keeps writing to
+        base = np.arange(10, dtype=np.int64) + sum(l)
+        setattr(model, f"base{n}", base)
+        v = base[2:6]
+    elif kind == 10:
+        v = [[x] for x in l]                 # nested lists
+    elif kind == 12:
+        v = ((1, list(l)), (2, {"d": list(l)}), frozenset({3}))   # a tuple of tuples that hold a list / a dict
+    else:
+        v = np.array(l, dtype=np.int64)
+    setattr(model, _mname(n), v)
+
+
+def _mutate_container(model, n, z):
+    """an in-place change of whatever container model.m<n> holds; False when there is nothing to change"""
+    import collections
+
+    import numpy as np
+
+    v = getattr(model, _mname(n), None)
+    if isinstance(v, list):
+        if v and isinstance(v[0], list):
+            v[0].append(z)
+        else:
+            v.append(z)
+    elif isinstance(v, np.ndarray) and v.dtype == object:
+        v[0].append(z)
+        v[1]["k"].append(z)
+    elif isinstance(v, np.ndarray) and v.dtype.names:
+        v["x"] += z + 1
+    elif isinstance(v, np.ndarray):
+        base = getattr(model, f"base{n}", None)
+        if base is not None and v.base is base:
+            base += z + 1                    # written through the view
+        elif v.size:
+            v += z + 1
+        else:
+            return False
+    elif isinstance(v, tuple) and isinstance(v[0], tuple):
+        v[0][1].append(z)
+        v[1][1]["d"].append(z)
+    elif isinstance(v, tuple):
+        v[0].append(z)
+    elif isinstance(v, dict):
+        v["a"] += z + 1
+        v["b"].append(z)
+    elif isinstance(v, set):
+        v.add(z + 1000 * len(v))
+    elif isinstance(v, collections.deque):
+        v.append(z)
+    elif isinstance(v, _Box):
+        v.items.append(z)
+        v.meta["n"] += 1
+    else:
+        return False
+    return True
+
+
+def _deep(v):
+    """immutable deep picture of a value: type names included"""
+    import collections
+
+    import numpy as np
+
+    if v is None or isinstance(v, (bool, int, float, str)):
+        return (type(v).__name__, v)
+    if isinstance(v, np.generic):
+        return ("np", str(v.dtype), v.item())
+    if isinstance(v, np.ndarray):
+        return ("nd", str(v.dtype), v.shape, _deep(v.tolist()))
+    if isinstance(v, (list, tuple, collections.deque)):
+        return (type(v).__name__, tuple(_deep(x) for x in v))
+    if isinstance(v, (set, frozenset)):
+        return (type(v).__name__, tuple(sorted(repr(_deep(x)) for x in v)))
+    if isinstance(v, dict):
+        return ("dict", tuple((repr(k), _deep(x)) for k, x in v.items()))
+    if hasattr(v, "__dict__"):
+        return ("obj", type(v).__name__, _deep(vars(v)))
+    return ("other", repr(v)[:60])
+
+
+def _run_containers(case):
+    """model reporters (all four forms + partial) whose values are rare MUTABLE containers changed in place after the collect:
+    every recorded value must stay what the reporter yielded at its collect (statement: immune to later mutation)"""
+    import functools
+    import types
+
+    import mesa
+    from mesa.datacollection import DataCollector
+
+    model = mesa.Model()
+    for n, kind, l in case["init"]:
+        _mk_container(model, n, kind, l)
+    reps, direct = {}, {}
+    for j, (n, form) in enumerate(case["reps"]):
+        name = _mname(n)
+        get = (lambda nm: lambda: getattr(model, nm, None))(name)
+        direct[f"r{j}"] = get
+        if form == "attr":
+            reps[f"r{j}"] = name
+        elif form == "fun":
+            reps[f"r{j}"] = (lambda nm: lambda m: getattr(m, nm, None))(name)
+        elif form == "partial":
+            reps[f"r{j}"] = functools.partial(lambda nm, m: getattr(m, nm, None), name)
+        elif form == "method":
+            reps[f"r{j}"] = types.MethodType((lambda nm: lambda self: getattr(self, nm, None))(name), model)
+        else:
+            reps[f"r{j}"] = [lambda m, nm: getattr(m, nm, None), [model, name]]
+    dc = DataCollector(model_reporters=reps)
+    shadow = {k: [] for k in reps}
+    obs, failures = [], []
+
+    def fail(key, i, what):
+        if not any(f["key"] == key for f in failures):
+            failures.append({"key": key, "op": i, "what": what})
+
+    for i, op in enumerate(case["ops"]):
+        kind = op[0]
+        try:
+            if kind == "mk":
+                _mk_container(model, op[1], op[2], op[3])
+            elif kind == "mut":
+                _mutate_container(model, op[1], op[2])
+            elif kind == "step":
+                model.steps += 1
+            elif kind == "collect":
+                exp = {k: _deep(f()) for k, f in direct.items()}
+                dc.collect(model)
+                for k, v in exp.items():
+                    shadow[k].append(v)
+                    got = dc.model_vars[k]
+                    if len(got) != len(shadow[k]):
+                        fail("C12/collect/model-var-count", i, f"model reporter {k}: {len(got)} values after {len(shadow[k])} collects")
+                    elif _deep(got[-1]) != v:
+                        fail("C12/collect/model-var-value", i, f"model reporter {k} ({case['reps']}): collect() stored {_deep(got[-1])}, evaluating it directly gives {v}")
+            for k, vals in shadow.items():
+                got = [_deep(x) for x in dc.model_vars[k][:len(vals)]]
+                if got != vals:
+                    j = next(j for j, (a, b) in enumerate(zip(got, vals)) if a != b)
+                    fail("C12/collect/model-var-mutated-later", i,
+                         f"after {op} the value model reporter {k} recorded at collect number {j} changed: {got[j]} (it was {vals[j]}); "
+                         f"containers {case['init']}, reporters {case['reps']}")
+                    shadow[k] = got
+        except Exception as e:  # noqa: BLE001
+            fail(f"C12/{kind}/unexpected-exception", i, f"{op} raised {type(e).__name__}: {e}")
+        obs.append([0])
+    return {"obs": obs, "failures": failures, "model": False}
+
+
+def _run_scale(case):
+    """SCALE (harness/SCALE_NOTE.md): many agents / many collects / long tables, sizes crossing 255/256/257/1024/1025/4096, values
+    beyond 2^31, 2^53, 2^63; checked against directly computed expectations at the end"""
+    import warnings
+
+    import mesa
+    from mesa.datacollection import DataCollector
+
+    cls = _classes()
+    N, K, T, churn = case["agents"], case["collects"], case["rows"], case["churn"]
+    model = mesa.Model()
+    model.big = 2 ** 53
+    dc = DataCollector(model_reporters={"count": lambda m: len(m.agents), "big": "big", "ids": lambda m: [a.unique_id for a in m.agents][-3:]},
+                       agent_reporters={"id": "unique_id", "v": lambda a: a.v, "w": "w"},
+                       agenttype_reporters={cls[2]: {"v": "v"}}, tables={"t": ["a", "b", "c"]})
+    reg = []
+    for j in range(N):
+        a = cls[j % 5](model)
+        a.v, a.w = 2 ** 53 + j, (j if j % 2 else None)     # (ints beyond 2^53 never share a column with None / floats: pandas' own rule)
+        reg.append(a)
+    exp_m, exp_a, exp_t = [], {}, {}
+    failures, obs = [], []
+
+    def fail(key, what):
+        if not any(f["key"] == key for f in failures):
+            failures.append({"key": key, "op": 0, "what": what[:600]})
+
+    try:
+        for c in range(K):
+            if c % 3 != 0:
+                model.steps += 1
+            if churn and reg and c % 2:
+                reg.pop(len(reg) // 2).remove()
+                a = cls[2](model)
+                a.v, a.w = 2 ** 53 + 7 * c, None
+                reg.append(a)
+            if reg:
+                reg[c % len(reg)].v = 2 ** 62 + c
+            model.big += c
+            exp_m.append((len(reg), model.big, tuple(a.unique_id for a in reg[-3:])))
+            exp_a[model.steps] = [(model.steps, a.unique_id, a.unique_id, a.v, a.w) for a in reg]
+            exp_t[model.steps] = [(model.steps, a.unique_id, a.v) for a in reg if type(a) is cls[2]]
+            dc.collect(model)
+        rows = []
+        for j in range(T):
+            r = {"a": j, "b": 2 ** 63 + j, "c": (None if j % 257 == 0 else -j)}
+            if j % 257 == 0:
+                del r["c"]
+            dc.add_table_row("t", r, ignore_missing=True)
+            rows.append((j, 2 ** 63 + j, None if j % 257 == 0 else -j))
+        got_m = list(zip(dc.model_vars["count"], dc.model_vars["big"], (tuple(x) for x in dc.model_vars["ids"])))
+        if [len(v) for v in dc.model_vars.values()] != [K] * 3:
+            fail("C12/collect/model-var-count", f"{K} collects, model_vars lengths {[len(v) for v in dc.model_vars.values()]}")
+        elif got_m != exp_m:
+            j = next(j for j, (a, b) in enumerate(zip(got_m, exp_m)) if a != b)
+            fail("C12/collect/model-var-value", f"collect number {j} of {K} ({N} agents): stored {got_m[j]}, directly {exp_m[j]}")
+        if {s: list(map(tuple, r)) for s, r in dc._agent_records.items()} != exp_a:
+            bad = [s for s in exp_a if list(map(tuple, dc._agent_records.get(s, []))) != exp_a[s]][:3]
+            fail("C12/collect/agent-rows", f"{N} agents, {K} collects: _agent_records differ at steps {bad} "
+                                           f"({[len(dc._agent_records.get(s, [])) for s in bad]} rows, expected {[len(exp_a[s]) for s in bad]})")
+        got_t = {s: list(map(tuple, inner.get(cls[2], []))) for s, inner in dc._agenttype_records.items()}
+        if got_t != exp_t:
+            fail("C12/collect/agenttype-rows", f"{N} agents, {K} collects: agent-type records of class 2 differ at steps {[s for s in exp_t if got_t.get(s) != exp_t[s]][:3]}")
+        with warnings.catch_warnings():
+            warnings.simplefilter("ignore")
+            df = dc.get_agent_vars_dataframe()
+            cols_ = [df[c_].tolist() for c_ in df.columns]        # column by column: DataFrame.values would unify the dtypes
+            recs = [(i[0], i[1]) + tuple(None if (isinstance(x, float) and x != x) else x for x in row) for i, row in zip(df.index.tolist(), zip(*cols_))]
+            want = [r for s in exp_a for r in exp_a[s]]
+            if len(recs) != len(want) or any(a[:4] != b[:4] for a, b in zip(recs, want)) or list(df.columns) != ["id", "v", "w"]:
+                j = next((j for j, (a, b) in enumerate(zip(recs, want)) if a[:4] != b[:4]), -1)
+                fail("C12/frames/agent", f"get_agent_vars_dataframe(): {len(recs)} rows for {len(want)} records; first difference at row {j}: "
+                                         f"{recs[j] if 0 <= j < len(recs) else None} vs {want[j] if 0 <= j < len(want) else None}")
+            mdf = dc.get_model_vars_dataframe()
+            if len(mdf) != K or list(mdf["count"]) != [m[0] for m in exp_m] or list(mdf["big"]) != [m[1] for m in exp_m]:
+                fail("C12/frames/model", f"get_model_vars_dataframe(): {len(mdf)} rows for {K} collects or values differ")
+            tdf = dc.get_table_dataframe("t")
+            trow = [(a, b, None if (isinstance(c, float) and c != c) else c) for a, b, c in zip(*[tdf[c_].tolist() for c_ in "abc"])] if len(tdf) else []
+        lens = {len(v) for v in dc.tables["t"].values()}
+        if lens != {T}:
+            fail("C12/add_table_row/misaligned", f"{T} rows added, column lengths {lens}")
+        if [tuple(dc.tables["t"][c][j] for c in "abc") for j in range(T)] != rows:
+            fail("C12/add_table_row/wrong-row", f"table of {T} rows: stored cells differ from the rows given")
+        if len(trow) != T or any((a, b) != (x, y) or (c is None) != (z is None) or (c is not None and c != z) for (a, b, c), (x, y, z) in zip(trow, rows)):
+            fail("C12/frames/table", f"get_table_dataframe(): {len(trow)} rows for {T} accepted rows or cells differ")
+    except Exception as e:  # noqa: BLE001
+        import traceback
+        fail("C12/scale/unexpected-exception", f"{case}: {type(e).__name__}: {e} {traceback.format_exc()[-300:]}")
+    return {"obs": [[0] for _ in case["ops"]], "failures": failures, "model": False}
+
+
 def run_impl(case):
+    if case.get("kind") == "containers":
+        return _run_containers(case)
+    if case.get("kind") == "scale":
+        return _run_scale(case)
     import warnings
 
     import mesa
@@ -1107,10 +1438,17 @@ def _c_op(op):
 
 
 def coq_case(case):
+    if case.get("kind") in ("containers", "scale"):      # oracle-only streams: nothing for the Z-valued model to evaluate
+        return "{| k_cfg := {| c_mreps := []; c_areps := []; c_treps := []; c_tables := [] |}; k_ops := [] |}"
     return f"{{| k_cfg := {_c_cfg(case['cfg'])}; k_ops := {L.lst([_c_op(o) for o in case['ops']])} |}}"
 
 
 def op_kinds(case):
+    if case.get("kind") == "containers":
+        return [f"container/{op[0]}" + (f"/kind{op[2]}" if op[0] == "mk" else "") for op in case["ops"]] + \
+               [f"container/init/kind{k}" for _, k, _ in case["init"]] + [f"container/reporter/{f}" for _, f in case["reps"]]
+    if case.get("kind") == "scale":
+        return [f"scale/agents={case['agents']}/collects={case['collects']}/rows={case['rows']}"]
     out = []
     for op in case["ops"]:
         k = op[0]
@@ -1127,6 +1465,8 @@ def op_kinds(case):
 
 
 def nontrivial(case):
+    if case.get("kind") in ("containers", "scale"):
+        return True
     cfg = case["cfg"]
     ncol = sum(1 for op in case["ops"] if op[0] == "collect")
     return ncol >= 2 and bool(cfg["mreps"] or cfg["areps"] or cfg["treps"])
